@@ -5,6 +5,7 @@
                               rewritten only if its content changed (so `make` stays a no-op)
     translate_all()           same, returns [(qualified function name, error message)] for every top-level
                               function that could NOT be translated; FUNCS holds the signature info of the others
+                              (LOOPY_FUNCS of those translated in the fuelled convention, see `while` below)
 
 Every translated function  f(a, b=None, c=0, d=False)  becomes
 
@@ -18,10 +19,22 @@ that mentions it stops compiling):
   * parameters: positional-or-keyword; default None -> option (T O); default True/False -> bool; numeric default
     or no default -> T O (defaults are used when another translated function calls it with fewer arguments);
   * statements: docstring, pass, `if c: raise ValueError(..)` (guard), if/elif/else, assignment to a name or a
-    tuple of names, augmented assignment, `f = lambda x: <expr>`, return of an expression or tuple.
+    tuple of names (a name repeated in the tuple, as in `Q, _, _ = f()`, keeps its LAST value, as in Python),
+    augmented assignment, `f = lambda x: <expr>`, return of an expression or tuple.
     Control flow is translated in continuation-passing style (the rest of the function is duplicated into both
     branches), so every path is straight-line code and the definite-assignment check is exact: using a name on a
-    path on which it has not been assigned is an error.  Loops, try, assert, with, ... are errors.
+    path on which it has not been assigned is an error.  for, try, assert, with, break, ... are errors.
+  * `while c: body` (body: assignments / if / ValueError guards / calls of loop-free translated functions; no return, break,
+    continue, nested loop, lambda, `else`; the condition calls no translated function) -- FUELLED convention: a function that
+    contains such a loop, or calls a function that does, gets an extra argument (fuel : nat) after O and returns
+    option (option r):  None = a loop ran out of fuel (not a Python outcome), Some None = ValueError, Some (Some r) = returns r.
+    Each loop becomes a top-level  Fixpoint <function>__loop<k> (O) (names read in the loop) (n__ : nat) (loop-carried names)
+    : option (option (tuple of the carried names)), recursive on n__, which tests the condition first (so fuel 0 suffices when
+    the loop does not run) and returns the carried values when the condition is first false; the carried names are the names
+    assigned in the body that exist before the loop (others are local to one pass and unassigned afterwards).  Every loop of a
+    function and of its callees receives the same `fuel`.  A function is translated in this convention only when the plain one
+    meets a loop; if the fuelled translation fails too, the reported error is the plain one (`unsupported statement While`)
+    and the reason is kept in LOOP_ERRORS (printed by main).
   * `x is None` / `x is not None` on an optional parameter: the statement containing the test is translated
     under `match x with None => .. | Some x => .. end`, in each branch the test is a constant and boolean
     expressions are constant-folded with Python's short-circuit rules; using an optional parameter as a number
@@ -29,7 +42,8 @@ that mentions it stops compiling):
   * expressions: names, int literals (ofZ), decimal literals (exact rational, ofQ; integral ones ofZ),
     + - * /, unary -, `e ** 2` (as e*e, see note), `e ** k` for a literal k >= 3 (field powi) and `e ** f` (field pow_),
     comparisons (chains too), and/or/not on booleans,
-    `a if c else b`, max/min of two numbers (Python's tie rule), tuples,
+    `a if c else b`, max/min of two numbers (Python's tie rule), abs (as `-x if x < 0 else x + 0`, which is float abs
+    bit for bit: -0.0 + 0 = +0.0, nan + 0 = nan), tuples,
     library calls of LIB (math/numpy sqrt -> sqrt; exp, log, norm.cdf/pdf/ppf, poisson.pmf/cdf/ppf, is_integer,
     golden_section_search, gamma.pdf/cdf/mean(.., scale=b), nbinom.pmf/cdf -> oracle fields of Ops), and calls of other translated stockpyl functions
     (propagating ValueError).  Names are resolved through the module's real import statements (star imports
@@ -46,10 +60,14 @@ import ast, importlib, os, sys, json
 from fractions import Fraction
 
 sys.path.insert(0, os.path.dirname(os.path.abspath(__file__)))
+if not os.path.exists(os.path.join(os.path.dirname(os.path.abspath(__file__)), 'vlib.py')):
+    sys.path.insert(0, '/verif/py')          # work-in-progress copy outside /verif/py
 import vlib
 
-MODULES = ['loss_functions', 'optimization', 'eoq', 'newsvendor', 'supply_uncertainty']
-GEN = os.path.join(vlib.COQ, 'gen')
+MODULES = ['loss_functions', 'optimization', 'eoq', 'newsvendor', 'supply_uncertainty', 'rq', 'ss']
+_HERE = os.path.dirname(os.path.abspath(__file__))
+WIP = os.path.basename(_HERE) != 'py'                      # True while this file lives in build/wip/<name>/
+GEN = os.path.join(_HERE, 'gen') if WIP else os.path.join(vlib.COQ, 'gen')
 
 # functions that are known to be in the supported subset: `python py2v.py` exits 1 if one of them fails
 EXPECTED = [
@@ -65,14 +83,18 @@ EXPECTED = [
     'newsvendor.newsvendor_normal_explicit', 'newsvendor.newsvendor_poisson_explicit',
     'supply_uncertainty.eoq_with_disruptions[approximate=True]', 'supply_uncertainty.eoq_with_disruptions_cost',
     'supply_uncertainty.eoq_with_additive_yield_uncertainty', 'supply_uncertainty.eoq_with_multiplicative_yield_uncertainty',
+    'rq.r_q_eoqss_approximation', 'ss.s_s_power_approximation',
 ]
+# functions with while loops that must translate (fuelled convention; they are listed in LOOPY_FUNCS, not in FUNCS, so that
+# consumers of FUNCS written for the plain convention -- c10.py / c10_tie.coq_call -- never see a definition with a fuel argument)
+EXPECTED_LOOPY = ['rq.r_q_optimal_r_for_q', 'rq.r_q_eoqb_approximation']
 
 OPS_FIELDS = ['T', 'add', 'sub', 'mul', 'div', 'neg', 'sqrt', 'ofZ', 'ofQ', 'ltb', 'leb', 'eqb', 'is_int', 'exp_', 'log_',
               'norm_cdf', 'norm_pdf', 'norm_ppf', 'poisson_pmf', 'poisson_cdf', 'poisson_ppf', 'gss', 'pow_', 'powi', 'lib']
 RESERVED = set(OPS_FIELDS) | set('''O Ops ROps FOps R Q Z N nat bool option list Some None true false fst snd pair
 as at cofix else end exists exists2 fix for forall fun if IF in let match mod Prop return Set then Type using where with
 Definition Lemma Theorem Proof Qed Section End Variable Hypothesis Import Export Require From andb orb negb
-Oracles Rltb Rleb Reqb'''.split())
+Oracles Rltb Rleb Reqb fuel S I tt nil cons'''.split())
 
 # canonical library name -> (ops field, arity)
 LIB1 = {'math.sqrt': 'sqrt', 'numpy.sqrt': 'sqrt', 'math.exp': 'exp_', 'numpy.exp': 'exp_',
@@ -97,6 +119,18 @@ def spec_name(f, static):
 
 class TErr(Exception):
     pass
+
+
+class NeedLoopy(Exception):
+    """raised while translating a function in the plain (loop-free) result convention when a `while` statement or a
+    call of a function that contains loops is met; the function is then re-translated in the fuelled convention"""
+    def __init__(self, err):
+        self.err = err            # the TErr the plain translator reports for this function (kept if the retry fails)
+
+
+class _LoopBack(ast.stmt):
+    """synthetic last statement of a loop body: the recursive call of the loop function"""
+    _fields = ()
 
 
 NUM, BOOL = 'num', 'bool'
@@ -166,6 +200,7 @@ class Translator:
         self.done = {}        # qualified name -> info dict | TErr
         self.active = []
         self.text = {}        # qualified name -> Gallina definition text
+        self.loop_errors = {} # qualified name -> reason the fuelled (while-loop) translation failed
         self._star = {}
 
     def module(self, name):
@@ -211,7 +246,14 @@ class Translator:
             raise TErr('recursive call cycle through %s' % q)
         self.active.append(q)
         try:
-            info = FuncTr(self, self.module(mod), fname, static).run()
+            try:
+                info = FuncTr(self, self.module(mod), fname, static).run()
+            except NeedLoopy as nl:
+                try:
+                    info = FuncTr(self, self.module(mod), fname, static, loopy=True).run()
+                except TErr as e2:
+                    self.loop_errors[q] = str(e2)       # why the fuelled translation failed (printed by main)
+                    raise nl.err
             self.done[q] = info
             return info
         except TErr as e:
@@ -224,8 +266,12 @@ class Translator:
 
 
 class FuncTr:
-    def __init__(self, tr, mod, fname, static=None):
+    def __init__(self, tr, mod, fname, static=None, loopy=False):
         self.tr, self.mod, self.fname = tr, mod, fname
+        self.loopy = loopy            # fuelled convention: option (option r); None = out of fuel, Some None = ValueError
+        self.VERR = 'Some None' if loopy else 'None'
+        self.in_loop = None           # inside a loop body: (loop function call prefix, carried names, their types)
+        self.loops = []               # Gallina text of the loop Fixpoints of this function (emitted before it)
         self.static = dict(static or {})
         self.coqname = spec_name(fname, self.static)
         self.node = mod.funcs[fname]
@@ -292,13 +338,19 @@ class FuncTr:
         sig = ' '.join('(%s : %s)' % (p['coq'], {'num': 'T O', 'opt': 'option (T O)', 'bool': 'bool'}[p['kind']]) for p in params)
         rty = ty_str(self.ret_ty)
         if not rty.startswith('('): rty = '(' + rty + ')'
-        text = '(* %s.py:%d *)\nDefinition %s (O : Ops) %s : option %s :=\n%s.\n' % (
-            self.mod.name, self.node.lineno, self.coqname, sig, rty, body)
+        if self.loopy:
+            text = ''.join(self.loops)
+            text += '(* %s.py:%d -- contains loops: None = out of fuel, Some None = ValueError, Some (Some r) = returns r *)\n' % (self.mod.name, self.node.lineno)
+            text += 'Definition %s (O : Ops) (fuel : nat) %s : option (option %s) :=\n%s.\n' % (self.coqname, sig, rty, body)
+        else:
+            text = '(* %s.py:%d *)\nDefinition %s (O : Ops) %s : option %s :=\n%s.\n' % (
+                self.mod.name, self.node.lineno, self.coqname, sig, rty, body)
         if self.static: text = '(* specialised to %s *)\n' % ', '.join('%s=%s' % kv for kv in sorted(self.static.items())) + text
         q = spec_key(self.mod.name + '.' + self.fname, self.static)
         self.tr.text[q] = text
         return dict(module=self.mod.name, name=self.fname, coqname=self.coqname, static=self.static, params=params, ret=self.ret_ty,
-                    oracles=sorted(self.oracles), calls=sorted(self.calls), lineno=self.node.lineno, paths=self.paths)
+                    oracles=sorted(self.oracles), calls=sorted(self.calls), lineno=self.node.lineno, paths=self.paths,
+                    loopy=self.loopy, loops=len(self.loops))
 
     def const_num(self, d):
         """Gallina term of a numeric literal (possibly negated), else None"""
@@ -354,7 +406,10 @@ class FuncTr:
         """propagate ValueError of the calls hoisted out of an expression"""
         pad = '  ' * ind
         for (pat, call) in reversed(binds):
-            inner = '%smatch %s with None => None | Some %s =>\n%s\n%send' % (pad, call, pat, inner, pad)
+            if isinstance(pat, tuple):      # callee in the fuelled convention (only met when self.loopy)
+                inner = '%smatch %s with None => None | Some None => Some None | Some (Some %s) =>\n%s\n%send' % (pad, call, pat[0], inner, pad)
+            else:
+                inner = '%smatch %s with None => %s | Some %s =>\n%s\n%send' % (pad, call, self.VERR, pat, inner, pad)
         return inner
 
     def with_binds(self, f):
@@ -383,10 +438,10 @@ class FuncTr:
             if is_guard:
                 self.check_raise(s.body[0])
                 if c.const is True:
-                    self.leaf(); return pad + 'None'
+                    self.leaf(); return pad + self.VERR
                 if c.const is False:
                     return self.stmts(rest, env, ind)
-                return '%sif %s then None else\n%s' % (pad, c.term, self.stmts(rest, env, ind))
+                return '%sif %s then %s else\n%s' % (pad, c.term, self.VERR, self.stmts(rest, env, ind))
             if c.const is True:
                 return self.stmts(list(s.body) + rest, env, ind)
             if c.const is False:
@@ -396,18 +451,21 @@ class FuncTr:
             return '%sif %s then\n%s\n%selse\n%s' % (pad, c.term, a, pad, b)
         if isinstance(s, ast.Raise):
             self.check_raise(s)
-            self.leaf(); return pad + 'None'
+            self.leaf(); return pad + self.VERR
+        if isinstance(s, _LoopBack):
+            return self.loop_back(s, rest, env, ind)
         nt = self.none_tests(s, env)
         if nt:
             return self.split(nt[0], stmts, env, ind)
         if isinstance(s, ast.Return):
             if s.value is None: self.err(s, 'bare return')
+            if self.in_loop is not None: self.err(s, '`return` inside a while loop')
             e, binds = self.with_binds(lambda: self.expr(s.value, env, allow_tuple=True))
             if self.ret_ty is None: self.ret_ty = e.ty
             elif self.ret_ty != e.ty: self.err(s, 'return types differ between paths: %r vs %r' % (self.ret_ty, e.ty))
             ty_str(e.ty)
             self.leaf()
-            return self.wrap_binds(binds, '%sSome %s' % (pad, e.term), ind)
+            return self.wrap_binds(binds, ('%sSome (Some %s)' if self.loopy else '%sSome %s') % (pad, e.term), ind)
         if isinstance(s, ast.AugAssign):
             if not isinstance(s.target, ast.Name): self.err(s, 'augmented assignment to a non-name')
             s2 = ast.Assign(targets=[ast.Name(id=s.target.id, ctx=ast.Store())],
@@ -419,6 +477,7 @@ class FuncTr:
             tg = s.targets[0]
             if isinstance(s.value, ast.Lambda):
                 if not isinstance(tg, ast.Name): self.err(s, 'lambda assigned to a non-name')
+                if self.loopy: self.err(s, 'lambda in a function that contains loops')
                 lam = s.value; la = lam.args
                 if len(la.args) != 1 or la.defaults or la.vararg or la.kwarg or la.kwonlyargs:
                     self.err(s, 'only one-argument lambdas are supported')
@@ -442,7 +501,10 @@ class FuncTr:
                 if not (isinstance(e.ty, tuple) and e.ty[0] == 'tuple' and len(e.ty[1]) == len(tg.elts)):
                     self.err(s, 'tuple assignment with a right-hand side of type %r' % (e.ty,))
                 cns = []
-                for x, t in zip(tg.elts, e.ty[1]):
+                ids = [x.id for x in tg.elts]
+                for i, (x, t) in enumerate(zip(tg.elts, e.ty[1])):
+                    if x.id in ids[i + 1:]:               # `Q, _, _ = ...`: Python binds left to right, the last one wins
+                        cns.append(self.fresh('ign')); continue
                     cn = self.mangle(x.id); cns.append(cn)
                     env2[x.id] = Var('val', t, cn)
                 if len(set(cns)) != len(cns): self.err(s, 'repeated name in tuple assignment')
@@ -450,7 +512,93 @@ class FuncTr:
             else:
                 self.err(s, 'assignment target is not a name or a tuple of names')
             return self.wrap_binds(binds, line + self.stmts(rest, env2, ind), ind)
+        if isinstance(s, ast.While):
+            if not self.loopy:
+                raise NeedLoopy(TErr('%s.py:%d: unsupported statement While' % (self.mod.name, s.lineno)))
+            return self.while_loop(s, rest, env, ind)
         self.err(s, 'unsupported statement %s' % type(s).__name__)
+
+    # ---- while loops (fuelled convention only)
+    def while_loop(self, s, rest, env, ind):
+        """`while c: body` (body: assignments / if / ValueError guards; no return, break, continue, nested loop, else)
+        becomes a top-level Fixpoint over the tuple of loop-carried variables (the names assigned in the body that are
+        defined before the loop), structurally recursive on a fuel counter; the names read in the loop are extra
+        parameters.  Result: None = out of fuel, Some None = ValueError raised in the loop, Some (Some state) = the
+        values of the carried variables when the condition is first false."""
+        pad = '  ' * ind
+        if s.orelse: self.err(s, 'while ... else')
+        if self.in_loop is not None: self.err(s, 'nested while loop')
+        for n in ast.walk(s):
+            if isinstance(n, (ast.Break, ast.Continue, ast.Return, ast.For, ast.Try, ast.With, ast.Lambda, ast.FunctionDef, ast.NamedExpr)) \
+                    or (isinstance(n, ast.While) and n is not s):
+                self.err(n, '%s inside a while loop' % type(n).__name__)
+        assigned = []
+        for st in s.body:
+            for n in ast.walk(st):
+                tgs = []
+                if isinstance(n, ast.Assign): tgs = n.targets
+                elif isinstance(n, ast.AugAssign): tgs = [n.target]
+                for t in tgs:
+                    for x in (t.elts if isinstance(t, ast.Tuple) else [t]):
+                        if not isinstance(x, ast.Name): self.err(n, 'assignment target is not a name or a tuple of names')
+                        if x.id not in assigned: assigned.append(x.id)
+        carried = [v for v in assigned if v in env]        # the others are local to one pass (unassigned after the loop)
+        if not carried: self.err(s, 'while loop whose body assigns no variable that exists before the loop')
+        for v in carried:
+            if env[v].kind != 'val' or env[v].ty not in (NUM, BOOL) or env[v].const is not None:
+                self.err(s, 'loop-carried variable %s is not a plain number/boolean' % v)
+        read = []
+        for n in ast.walk(s):
+            if isinstance(n, ast.Name) and n.id in env and n.id not in carried and n.id not in read: read.append(n.id)
+        free = []
+        for v in read:
+            x = env[v]
+            if x.kind == 'val' and x.ty in (NUM, BOOL) and x.const is None: free.append(v)
+            elif x.kind == 'val' and x.const is not None: pass          # statically known boolean: inlined
+            else: self.err(s, 'variable %s (optional / function value) is used inside a while loop' % v)
+        lname = '%s__loop%d' % (self.coqname, len(self.loops) + 1)
+        tyof = lambda v: 'T O' if env[v].ty == NUM else 'bool'
+        envL = {v: env[v] for v in read}
+        for v in carried: envL[v] = Var('val', env[v].ty, self.mangle(v))
+        cns = [envL[v].coq for v in free + carried]
+        if len(set(cns)) != len(cns) or 'n__' in cns: self.err(s, 'name clash among the variables of a while loop')
+        prefix = '%s O %s' % (lname, ' '.join(envL[v].coq for v in free))
+        state_ty = ' * '.join(tyof(v) for v in carried)
+        c, binds = self.with_binds(lambda: self.expr(s.test, envL))
+        if c.ty != BOOL: self.err(s, 'condition of `while` is not a boolean expression')
+        if binds: self.err(s, 'call of a translated function inside a `while` condition')
+        if c.const is not None: self.err(s, 'while loop with a constant condition')
+        save = (self.in_loop, self.ret_ty)
+        self.in_loop = (prefix.rstrip(), carried, [env[v].ty for v in carried])
+        back = _LoopBack(); ast.copy_location(back, s)
+        body = self.stmts(list(s.body) + [back], envL, 3)
+        self.in_loop, self.ret_ty = save
+        exit_state = '(' + ', '.join(envL[v].coq for v in carried) + ')' if len(carried) > 1 else envL[carried[0]].coq
+        self.leaf()
+        text = '(* %s.py:%d: the while loop; state = (%s) *)\n' % (self.mod.name, s.lineno, ', '.join(carried))
+        text += 'Fixpoint %s (O : Ops) %s (n__ : nat) %s {struct n__} : option (option (%s)) :=\n' % (
+            lname, ' '.join('(%s : %s)' % (envL[v].coq, tyof(v)) for v in free),
+            ' '.join('(%s : %s)' % (envL[v].coq, tyof(v)) for v in carried), state_ty)
+        text += '  if %s then\n    match n__ with\n    | O => None\n    | S n__ =>\n%s\n    end\n  else Some (Some %s).\n\n' % (c.term, body, exit_state)
+        self.loops.append(text)
+        env2 = dict(env)
+        for v in carried: env2[v] = Var('val', env[v].ty, self.mangle(v))
+        pat = '(' + ', '.join(env2[v].coq for v in carried) + ')' if len(carried) > 1 else env2[carried[0]].coq
+        call = '(%s fuel %s)' % (prefix.rstrip(), ' '.join(env[v].coq for v in carried))
+        return '%smatch %s with None => None | Some None => Some None | Some (Some %s) =>\n%s\n%send' % (
+            pad, call, pat, self.stmts(rest, env2, ind), pad)
+
+    def loop_back(self, s, rest, env, ind):
+        pad = '  ' * ind
+        if rest or self.in_loop is None: self.err(s, 'internal: misplaced loop-back')
+        prefix, carried, tys = self.in_loop
+        args = []
+        for v, t in zip(carried, tys):
+            x = env.get(v)
+            if x is None or x.kind != 'val' or x.ty != t: self.err(s, 'loop-carried variable %s changes its type inside the loop' % v)
+            args.append(x.coq)
+        self.leaf()
+        return '%s%s n__ %s' % (pad, prefix, ' '.join(args))
 
     def check_raise(self, r):
         ex = r.exc
@@ -474,7 +622,7 @@ class FuncTr:
         if d[0] in env: return None            # a local variable shadows the global
         if d[0] in self.mod.ns:
             return '.'.join([self.mod.ns[d[0]]] + d[1:])
-        if len(d) == 1 and d[0] in ('max', 'min'):
+        if len(d) == 1 and d[0] in ('max', 'min', 'abs'):
             return 'builtins.' + d[0]
         return None
 
@@ -616,6 +764,11 @@ class FuncTr:
             # Python: max(a, b) = b if b > a else a ; min(a, b) = b if b < a else a
             test = '(ltb O %s %s)' % ((x, y) if name.endswith('max') else (y, x))
             return E('(let %s := %s in let %s := %s in if %s then %s else %s)' % (x, a.term, y, b.term, test, y, x), NUM)
+        if name == 'builtins.abs':
+            if nargs != 1 or node.keywords: self.err(node, 'abs needs one numeric argument')
+            a = self.num(node.args[0], env); x = self.fresh('a')
+            # float abs clears the sign bit: -x for x < 0; x + 0 otherwise (-0.0 + 0 = +0.0, nan + 0 = nan, x + 0 = x)
+            return E('(let %s := %s in if (ltb O %s (ofZ O 0)) then (neg O %s) else (add O %s (ofZ O 0)))' % (x, a.term, x, x, x), NUM)
         if name in LIB1:
             f = LIB1[name]
             if node.keywords: self.err(node, 'keyword arguments in a library call')
@@ -712,6 +865,13 @@ class FuncTr:
                     args.append(self.num(a, env).term)
             self.oracles |= set(info['oracles']); self.calls.add(m + '.' + f)
             callee = f if m == self.mod.name else 'Gen_%s.%s' % (m, f)
+            if info.get('loopy'):
+                if not self.loopy:
+                    raise NeedLoopy(TErr('%s.py:%d: callee %s contains loops' % (self.mod.name, node.lineno, name)))
+                if self.in_loop is not None: self.err(node, 'call of a function that contains loops inside a while loop')
+                t = self.fresh('r')
+                self.binds.append(((t,), '(%s O fuel %s)' % (callee, ' '.join(args))))
+                return E(t, info['ret'])
             t = self.fresh('r')
             self.binds.append((t, '(%s O %s)' % (callee, ' '.join(args))))
             return E(t, info['ret'])
@@ -719,8 +879,10 @@ class FuncTr:
 
 
 # ------------------------------------------------------------------------------------------------
-FUNCS = {}
+FUNCS = {}           # translated functions in the plain convention (option r)
+LOOPY_FUNCS = {}     # translated functions in the fuelled convention (fuel argument, option (option r))
 ERRORS = []
+LOOP_ERRORS = {}     # function -> why its while-loops could not be translated (the Gen file keeps the plain message)
 
 
 def translate_all(write=True):
@@ -762,6 +924,10 @@ def translate_all(write=True):
         head = '(* GENERATED by py/py2v.py from stockpyl/%s.py -- do not edit; regenerated on every check run.\n' % m
         head += '   Each definition is the Python function of the same name over the operations record of Base/Ops.v;\n'
         head += '   None = the function raises ValueError, Some r = it returns r. *)\n'
+        if any(funcs[q].get('loopy') for q in emitted):
+            head += '(* Functions that contain while loops (or call such a function) take an extra argument (fuel : nat) and return\n'
+            head += '   option (option r): None = a loop ran out of fuel (not a Python outcome), Some None = ValueError, Some (Some r) = returns r.\n'
+            head += '   Each loop is a Fixpoint <function>__loop<k> over the tuple of loop-carried variables, recursive on the fuel. *)\n'
         head += 'From Coq Require Import ZArith QArith Bool.\nFrom SV Require Import Base.Ops.\n'
         for d in deps: head += 'From SV Require gen.Gen_%s.\n' % d
         body = '\n'.join(lines)
@@ -773,20 +939,28 @@ def translate_all(write=True):
             old = open(p).read() if os.path.exists(p) else None
             if old != text:
                 with open(p, 'w') as fh: fh.write(text)
-    FUNCS = funcs; ERRORS = errors
+    global LOOPY_FUNCS
+    FUNCS = {q: i for q, i in funcs.items() if not i.get('loopy')}
+    LOOPY_FUNCS = {q: i for q, i in funcs.items() if i.get('loopy')}
+    ERRORS = errors
+    global LOOP_ERRORS
+    LOOP_ERRORS = dict(tr.loop_errors)
     return errors
 
 
 def main():
     errs = translate_all()
-    print('py2v: %d functions translated from %s' % (len(FUNCS), os.path.join(vlib.REPO_SRC, 'stockpyl')))
+    print('py2v: %d functions translated from %s (%d of them with loops)' % (len(FUNCS) + len(LOOPY_FUNCS), os.path.join(vlib.REPO_SRC, 'stockpyl'), len(LOOPY_FUNCS)))
+    for q in sorted(LOOPY_FUNCS): print('  ok   %-60s paths=%d oracles=%s loops=%d (fuelled)' % (q, LOOPY_FUNCS[q]['paths'], ','.join(LOOPY_FUNCS[q]['oracles']) or '-', LOOPY_FUNCS[q]['loops']))
     for q in sorted(FUNCS): print('  ok   %-60s paths=%d oracles=%s' % (q, FUNCS[q]['paths'], ','.join(FUNCS[q]['oracles']) or '-'))
     bad = 0
     for q, e in errs:
-        exp = q in EXPECTED
+        exp = q in EXPECTED or q in EXPECTED_LOOPY
         bad += exp
         print('  %s %-60s %s' % ('FAIL' if exp else 'skip', q, e))
+        if q in LOOP_ERRORS: print('       %-60s (loop translation tried: %s)' % ('', LOOP_ERRORS[q]))
     missing = [q for q in EXPECTED if q not in FUNCS and q not in [x for x, _ in errs]]
+    missing += [q for q in EXPECTED_LOOPY if q not in LOOPY_FUNCS and q not in [x for x, _ in errs]]
     for q in missing: print('  FAIL %-60s function not found in the source' % q)
     return 1 if (bad or missing) else 0
 
